@@ -215,3 +215,48 @@ mod test {
         }
     }
 }
+
+/// Verification hooks (only compiled with `--cfg inkayaku_verif`): thin wrappers that expose the private
+/// evaluator, repetition history and helpers to an out-of-tree harness crate. Adds items only.
+#[cfg(inkayaku_verif)]
+pub mod verif {
+    use inkayaku_board::Bitboard;
+    use inkayaku_board::PlayerState;
+    use inkayaku_board::constants::{ColorBits, ZobristHash};
+    use inkayaku_board::Move;
+    use inkayaku_uci::{Score, UciMove};
+
+    use crate::engine::heuristic::Heuristic;
+    use crate::engine::heuristic::simple::SimpleHeuristic;
+    pub use crate::engine::table::verif_table::Table;
+    use crate::engine::zobrist_history::ZobristHistory;
+
+    pub fn evaluate(bitboard: &Bitboard, legal_moves_remaining: bool) -> i32 { SimpleHeuristic.evaluate(bitboard, 0, legal_moves_remaining) }
+    pub fn evaluate_ongoing(bitboard: &Bitboard) -> i32 { SimpleHeuristic.evaluate_ongoing(bitboard, 0) }
+    pub fn win_score() -> i32 { SimpleHeuristic.win_score() }
+    pub fn loss_score() -> i32 { SimpleHeuristic.loss_score() }
+    pub fn draw_score() -> i32 { SimpleHeuristic.draw_score() }
+    pub fn is_checkmate(value: i32) -> bool { SimpleHeuristic.is_checkmate(value) }
+    /// `None` = centipawn score, `Some(n)` = `mate n`.
+    pub fn score_from_value(value: i32, bitboard: &Bitboard) -> (Option<i32>, i32) {
+        match SimpleHeuristic.score_from_value(value, bitboard) {
+            Score::Mate { mate_in } => (Some(mate_in), 0),
+            Score::Centipawn { score } => (None, score),
+            _ => (None, i32::MIN),
+        }
+    }
+    pub fn psq(color: usize, stage: usize, piece: usize, square: usize) -> i32 { SimpleHeuristic::verif_psq(color, stage, piece, square) }
+    pub fn game_stage(bitboard: &Bitboard) -> usize { SimpleHeuristic::verif_game_stage(bitboard) }
+    pub fn piece_value(state: &PlayerState) -> i32 { SimpleHeuristic::verif_piece_value(state) }
+    pub fn piece_square_value(bitboard: &Bitboard) -> i32 { SimpleHeuristic::verif_piece_square_value(bitboard) }
+    pub fn heuristic_factor(color: ColorBits) -> i32 { crate::engine::search::verif_heuristic_factor(color) }
+    pub fn default_contempt() -> i32 { crate::engine::search::verif_default_contempt() }
+    pub fn move_into_uci_move(mv: Move) -> UciMove { crate::move_into_uci_move(mv) }
+
+    pub struct History(ZobristHistory);
+    impl History {
+        pub fn new() -> Self { Self(ZobristHistory::default()) }
+        pub fn set(&mut self, index: u16, hash: ZobristHash) { self.0.set(index, hash) }
+        pub fn count_repetitions(&self, start_index: u16, halfmove_clock: u16) -> usize { self.0.count_repetitions(start_index, halfmove_clock) }
+    }
+}
